@@ -140,7 +140,9 @@ def build_harness(shapes, profile='debug'):
         # coverage mode (tools/coverage.py): instrumented build in its own target directory
         flags += ' --target-dir %s' % os.path.join(COV, 'target')
         binary = os.path.join(COV, 'target', profile, 'flatty-verif-harness')
-        env = dict(ENV, RUSTFLAGS='-C instrument-coverage', RUSTUP_TOOLCHAIN='nightly')
+        env = dict(ENV, RUSTFLAGS='-C instrument-coverage', RUSTUP_TOOLCHAIN='nightly',
+                   # the instrumented proc-macro crate writes a profile when rustc runs it: keep it out of /repo
+                   LLVM_PROFILE_FILE=os.path.join(COV, 'prof-build', '%p-%m.profraw'))
     want = ['%s %s' % (sid, shp.sexp(t)) for sid, t in shapes]
     for attempt in range(2):
         rc, out = sh('cargo build --offline %s' % flags, cwd=hdir, timeout=1800, env=env)
